@@ -51,6 +51,17 @@ func existsAndValidBlob(ctx context.Context, store storage.Store, pth string, da
 		// these metrics can be roughly used as a upper-bound for the probability of a random collision, which should be actually be much lower.
 	}
 
+	if found && !overwrite {
+		// The blob is about to be reused as is. Refresh its update time: a purge job whose reverse-lookup index was
+		// built before this upload only spares the unindexed blobs that are more recent than the index.
+		// If that fails (e.g. the blob has just been purged), write it again.
+		if err = store.Touch(ctx, pth); err != nil {
+			lg.Warn("cafs could not refresh the update time of a reused blob. About to overwrite it", zap.Error(err))
+
+			overwrite = true
+		}
+	}
+
 	return found, overwrite
 }
 
